@@ -11,6 +11,7 @@ import (
 
 	"github.com/ovn-org/libovsdb/cache"
 	"github.com/ovn-org/libovsdb/model"
+	"github.com/ovn-org/libovsdb/ovsdb"
 
 	"verifharness/dyn"
 	"verifharness/emit"
@@ -135,6 +136,24 @@ func c05Collections(o opts, g *gen.G, w *emit.Writer) error {
 				fu, _, err := rc.RowByModel(m)
 				if err != nil || fu != u {
 					fail("RowByModel with the name and set of row %s (elements in another order) finds %q (%v)", u, fu, err)
+				}
+			}
+			// conditions on the indexed map column select what a scan selects: every map includes the empty map,
+			// a map equals only itself
+			if res, err := rc.RowsByCondition([]ovsdb.Condition{{Column: "m", Function: ovsdb.ConditionIncludes, Value: ovsdb.OvsMap{GoMap: map[interface{}]interface{}{}}}}); err != nil || len(res) != len(rows) {
+				fail("m includes {} selects %d of %d rows through the index over the whole column m (%v)", len(res), len(rows), err)
+			}
+			for u, r := range rows {
+				want := 0
+				for _, r2 := range rows {
+					if r2["m"].Canon().Equal(r["m"].Canon()) {
+						want++
+					}
+				}
+				mc := colOf(cols, "m")
+				res, err := rc.RowsByCondition([]ovsdb.Condition{{Column: "m", Function: ovsdb.ConditionEqual, Value: mc.ToOvs(shuffled(r["m"]))}})
+				if err != nil || len(res) != want {
+					fail("m == (the map of row %s) selects %d rows, a scan %d (%v)", u, len(res), want, err)
 				}
 			}
 		}()
